@@ -17,8 +17,14 @@ pub enum Topo {
     Merge(Vec<Topo>),
     Concat(Vec<Topo>),
     Combine(Vec<Topo>),
-    /// flatten(outer puppet); the outer puppet's k-th item is the source `inners[k]`
-    Flatten { outer: u8, inners: Vec<Topo> },
+    /// flatten(outer puppet); the outer puppet's k-th item is the source `inners[order[k]]`
+    /// (`inners[k]` when `order` is empty), so the same inner source can be emitted again
+    Flatten {
+        outer: u8,
+        inners: Vec<Topo>,
+        #[serde(default)]
+        order: Vec<u8>,
+    },
     /// flatten(map(g)(outer)) with g(v) = inners[v mod len]
     FlatMap { outer: Box<Topo>, inners: Vec<Topo> },
     Share(Box<Topo>),
@@ -46,6 +52,8 @@ pub enum Reply {
     Ignore,
     Sync,
     Deferred,
+    /// answer the Pull with the next item and then complete, inside the same call
+    SyncEnd,
 }
 
 #[derive(Clone, Debug, Serialize, Deserialize, PartialEq, Eq, Hash)]
@@ -143,6 +151,9 @@ pub enum SinkKind {
     Probe,
     /// the crate's for_each is the sink under test; probes are unused
     ForEach,
+    /// ONE for_each(f) value applied to each member of the root Merge node separately (the Merge itself
+    /// is not built): two subscriptions made through the same sink factory
+    ForEachShared,
 }
 
 #[derive(Clone, Debug, Serialize, Deserialize, PartialEq, Eq, Hash)]
@@ -155,6 +166,9 @@ pub struct Scenario {
     pub sinks: Vec<SinkSpec>,
     /// probe 0 is attached before the schedule starts
     pub attach_first: bool,
+    /// ForEachShared only: apply the for_each value to this member alone (solo run)
+    #[serde(default)]
+    pub fe_only: Option<u8>,
     pub schedule: Vec<Step>,
 }
 
@@ -198,6 +212,8 @@ pub enum Profile {
     PullCount,
     /// from_iter directly under a probe (n = 255 means an unbounded iterator)
     FromIterDirect,
+    /// one for_each(f) value applied to two puppet sources (C13: the sink factory is reusable)
+    ForEachDual,
     /// like AnySingle / Composed but some peers break the protocol (zombie sources, rogue sinks);
     /// only C20's cross-build differential uses it (its oracle does not depend on conformance)
     Rogue,
@@ -253,6 +269,9 @@ struct Gen<'a, 'b> {
     /// take(0) may be generated (only where no model or counting oracle assumes n >= 1)
     take_zero: bool,
     late_everywhere: bool,
+    /// user closures with internal state (a call counter that a clone copies) may be generated: only
+    /// where no reference model evaluates the closures (C13's projection relation)
+    stateful: bool,
 }
 
 impl<'a, 'b> Gen<'a, 'b> {
@@ -279,10 +298,10 @@ impl<'a, 'b> Gen<'a, 'b> {
     }
     fn op(&mut self, op: Op, depth: usize, at_root: bool) -> Topo {
         match op {
-            Op::Map => Topo::Map(self.d.below(5) as u8, Box::new(self.tree(depth, false))),
-            Op::Filter => Topo::Filter(self.d.below(5) as u8, Box::new(self.tree(depth, false))),
+            Op::Map => Topo::Map(self.d.below(if self.stateful { 7 } else { 5 }) as u8, Box::new(self.tree(depth, false))),
+            Op::Filter => Topo::Filter(self.d.below(if self.stateful { 7 } else { 5 }) as u8, Box::new(self.tree(depth, false))),
             Op::Scan => {
-                let r = self.d.below(4) as u8;
+                let r = self.d.below(if self.stateful { 6 } else { 4 }) as u8;
                 let seed = self.d.below(7) as i64 - 2;
                 Topo::Scan(r, seed, Box::new(self.tree(depth, false)))
             }
@@ -307,7 +326,13 @@ impl<'a, 'b> Gen<'a, 'b> {
             Op::Flatten => {
                 let Topo::Puppet(outer) = self.puppet(false) else { unreachable!() };
                 let inners = self.members(depth, 0, 4, false);
-                Topo::Flatten { outer, inners }
+                // sometimes the outer emits its inner sources in a generated order with repetitions
+                let mut order = vec![];
+                if !inners.is_empty() && self.d.below(3) == 2 {
+                    let n = 1 + self.d.below(6);
+                    order = (0..n).map(|_| self.d.below(inners.len()) as u8).collect();
+                }
+                Topo::Flatten { outer, inners, order }
             }
         }
     }
@@ -351,7 +376,7 @@ impl<'a, 'b> Gen<'a, 'b> {
         let late = late_ok && d.below(3) == 2;
         let max_items = d.below(7) as u8;
         let finale = d.pick(&[Finale::End, Finale::End, Finale::Error, Finale::Never]);
-        let fix = |r: Reply| if no_sync && r == Reply::Sync { Reply::Deferred } else { r };
+        let fix = |r: Reply| if no_sync && matches!(r, Reply::Sync | Reply::SyncEnd) { Reply::Deferred } else { r };
         match style {
             0 => {
                 // listenable
@@ -375,8 +400,9 @@ impl<'a, 'b> Gen<'a, 'b> {
                 let burst =
                     (0..nb).map(|_| d.pick(&[PAct::Emit, PAct::Emit, PAct::End, PAct::Error])).collect();
                 let n = d.below(6);
-                let reply =
-                    (0..n).map(|_| fix(d.pick(&[Reply::Ignore, Reply::Sync, Reply::Deferred]))).collect();
+                let reply = (0..n)
+                    .map(|_| fix(d.pick(&[Reply::Ignore, Reply::Sync, Reply::Deferred, Reply::Sync, Reply::SyncEnd])))
+                    .collect();
                 let reply_default = fix(d.pick(&[Reply::Ignore, Reply::Sync, Reply::Deferred]));
                 PuppetSpec { late, burst, max_items, finale, reply, reply_default, zombie: false }
             }
@@ -449,9 +475,10 @@ pub fn decode(profile: Profile, bytes: &[u8], max_steps: usize) -> Scenario {
         n_pup: 0,
         n_leaf: 0,
         late_ok: vec![],
-        puppets_only: matches!(profile, Profile::Single(_) | Profile::Dual(_) | Profile::Share | Profile::ShareNested | Profile::LateShare | Profile::LateAny),
+        puppets_only: matches!(profile, Profile::Single(_) | Profile::Dual(_) | Profile::Share | Profile::ShareNested | Profile::LateShare | Profile::LateAny | Profile::ForEachDual),
         take_zero: matches!(profile, Profile::AnySingle | Profile::Composed),
         late_everywhere: false,
+        stateful: profile == Profile::Indep,
     };
     let mut root_tuple = false;
     let mut sink_kind = SinkKind::Probe;
@@ -537,6 +564,12 @@ pub fn decode(profile: Profile, bytes: &[u8], max_steps: usize) -> Scenario {
             } else {
                 g.op(ALL_OPS[k - 1], depth, false)
             }
+        }
+        Profile::ForEachDual => {
+            sink_kind = SinkKind::ForEachShared;
+            let a = g.puppet(false);
+            let b = g.puppet(false);
+            Topo::Merge(vec![a, b])
         }
         Profile::Rogue => {
             let depth = g.d.below(3);
@@ -640,7 +673,13 @@ pub fn decode(profile: Profile, bytes: &[u8], max_steps: usize) -> Scenario {
                     StepPAct::Error,
                 ])
             };
-            let owner = if matches!(profile, Profile::Indep | Profile::Dual(_)) { d.below(2) as u8 } else { ANY_OWNER };
+            let owner = if matches!(profile, Profile::Indep | Profile::Dual(_)) {
+                d.below(2) as u8
+            } else if profile == Profile::ForEachDual {
+                who as u8
+            } else {
+                ANY_OWNER
+            };
             schedule.push(Step::Pup { p: who as u8, owner, act });
         } else {
             let s = (who - n_pup) as u8;
@@ -673,7 +712,7 @@ pub fn decode(profile: Profile, bytes: &[u8], max_steps: usize) -> Scenario {
             schedule.push(Step::Sink { s, act });
         }
     }
-    Scenario { topo, root_tuple, sink_kind, puppets, sinks, attach_first, schedule }
+    Scenario { topo, root_tuple, sink_kind, puppets, sinks, attach_first, fe_only: None, schedule }
 }
 
 impl Topo {
@@ -756,7 +795,7 @@ fn pup_weight(p: &PuppetSpec) -> usize {
         + p.burst.len() * 2
         + p.max_items as usize
         + (p.finale != Finale::End) as usize
-        + p.reply.iter().map(|r| if *r == Reply::Ignore { 1 } else { 2 }).sum::<usize>()
+        + p.reply.iter().map(|r| match r { Reply::Ignore => 1, Reply::SyncEnd => 3, _ => 2 }).sum::<usize>()
         + (p.reply_default != Reply::Ignore) as usize
 }
 
@@ -882,11 +921,15 @@ fn topo_shrinks(t: &Topo) -> Vec<Topo> {
                 }
             }
         }
-        Topo::Flatten { outer, inners } => {
-            if !inners.is_empty() {
+        Topo::Flatten { outer, inners, order } => {
+            if !order.is_empty() {
+                let mut o = order.clone();
+                o.pop();
+                out.push(Topo::Flatten { outer: *outer, inners: inners.clone(), order: o });
+            } else if !inners.is_empty() {
                 let mut v = inners.clone();
                 v.pop();
-                out.push(Topo::Flatten { outer: *outer, inners: v });
+                out.push(Topo::Flatten { outer: *outer, inners: v, order: vec![] });
             }
         }
         Topo::FlatMap { outer, inners } => {
@@ -930,10 +973,10 @@ fn topo_shrinks(t: &Topo) -> Vec<Topo> {
                 v[idx] = new;
                 Topo::Combine(v)
             }
-            Topo::Flatten { outer, inners } => {
+            Topo::Flatten { outer, inners, order } => {
                 let mut v = inners.clone();
                 v[idx] = new;
-                Topo::Flatten { outer: *outer, inners: v }
+                Topo::Flatten { outer: *outer, inners: v, order: order.clone() }
             }
             Topo::FlatMap { outer, inners } => {
                 if idx == 0 {
